@@ -56,6 +56,8 @@ impl State {
 //@use compile.fns State::dict_pos
 //@use compile.fns State::run_immediate
 //@use compile.fns State::build_word
+//@use compile.fns State::next_name
+//@use compile.fns State::top_function_flow
 //@use state.fns State::alloc_heap assumed
 //@use state.fns State::check_heap_limit assumed
 }
@@ -82,6 +84,11 @@ fn verif_read_source_file(path: &Xstr) -> Xresult1<String> { unimplemented!() }
 //@use compile.fns ::core_word_repeat
 //@use compile.fns ::core_word_loop
 //@use compile.fns ::build_global_variable
+//@use compile.fns ::build_local_variable
+//@use compile.fns ::core_word_def_local
+//@use compile.fns ::core_word_variable
+//@use compile.fns ::core_word_setvar
+//@use compile.fns ::core_word_nil
 //@use compile.fns ::core_word_def_begin_named
 //@use compile.fns ::core_word_nested_begin
 //@use compile.fns ::core_word_def_end
@@ -90,6 +97,7 @@ fn verif_read_source_file(path: &Xstr) -> Xresult1<String> { unimplemented!() }
 #[verifier::external_body] fn verif_control_flow_error() -> (r: Xresult) ensures r is Err { unimplemented!() }
 // R13: `Xstr::from(name.as_str())` (arcstr substring -> string): opaque
 #[verifier::external_body] fn verif_xstr_of(name: &Xsubstr) -> Xstr { unimplemented!() }
+#[verifier::external_body] fn verif_lit_xstr() -> Xstr { unimplemented!() }
 // text of a name (opaque): lets code that looks a name up in the dictionary stay inside the unit
 pub uninterp spec fn name_text(s: &str) -> Seq<char>;
 pub uninterp spec fn xstr_text(s: Xstr) -> Seq<char>;
@@ -98,6 +106,7 @@ spec fn dict_last(d: Seq<DictEntry>, t: Seq<char>, i: int) -> bool {
 }
 pub uninterp spec fn sub_str(t: Xsubstr) -> &'static str;
 impl Xsubstr { #[verifier::external_body] pub fn as_str(&self) -> (r: &str) ensures r == sub_str(*self) { unimplemented!() } }
+impl core::ops::Deref for Xsubstr { type Target = str; #[verifier::external_body] fn deref(&self) -> (r: &str) ensures r == sub_str(*self) { unimplemented!() } }
 impl Xstr { #[verifier::external_body] pub fn as_str(&self) -> (r: &str) ensures name_text(r) == xstr_text(*self) { unimplemented!() } }
 impl Xerr {
     #[verifier::external_body] pub fn conditional_var_definition() -> Xerr { unimplemented!() }
